@@ -1,6 +1,7 @@
 import AITB.Model.Proto
 import AITB.Model.Factored
 import Driver.C14b
+import AITB.Model.FactoredAlg
 open AITB AITB.Factored
 
 namespace DrvC14
@@ -129,6 +130,43 @@ def misc : P String := do
   let v := v.failIf (jn != full ++ other) s!"join wrong_concatenation"
   return v.render
 
+/-- `skipidx sp keys full toModify | first skipMult implIndex` : toIndexPartialAndSkip -/
+def skipidx : P String := do
+  let sp ← P.nats; let keys ← P.nats; let full ← P.nats; let tm ← P.nat; P.bar
+  let first ← P.nat; let sm ← P.nat; let idx ← P.nat; P.eof
+  let m := toIndexPartialAndSkip keys sp full tm
+  let v : Verdict := { tag := "skipidx" }
+  let v := v.diffIf (m != (first, sm)) s!"toIndexPartialAndSkip model={m.1},{m.2} impl={first},{sm}"
+  -- property: index = first + skipMultiplier * f[toModify]; first is the index of f with f[toModify] := 0
+  let v := v.failIf (idx != toIndexPartial keys sp full) s!"toIndexPartial wrong_index {idx}"
+  let v := v.failIf (first + sm * (if keys.contains tm then full.getD tm 0 else 0) != idx) s!"toIndexPartialAndSkip not_decomposition_of_index {first} {sm}"
+  let v := v.failIf (first != toIndexPartial keys sp (full.set tm 0)) s!"toIndexPartialAndSkip first_not_index_with_zeroed_factor {first}"
+  return v.render
+
+def natPairs : P (List (Nat × Nat)) := do
+  let a ← P.nats; let b ← P.nats
+  if a.length != b.length then P.fail else pure (a.zip b)
+
+/-- `misc2 l r S | mergedKeys matches mergedVals joinKeys joinVals tpfKeys` : merge(PartialKeys, matches), merge(PartialValues),
+    join(S, pf, pf), toPartialFactors -/
+def misc2 : P String := do
+  let l ← pairs; let r ← pairs; let bigS ← P.nat; let full ← P.nats; P.bar
+  let mk ← P.nats; let mm ← natPairs; let mv ← P.nats; let jk ← P.nats; let jv ← P.nats; let tk ← P.nats; let tv ← P.nats; P.eof
+  let lk := l.map (·.1); let rk := r.map (·.1)
+  let v : Verdict := { tag := "misc2" }
+  let mp := mergePF l r
+  let v := v.diffIf (AITB.Factored.mergeKeys lk rk != mk) s!"merge(PartialKeys) model={AITB.Factored.mergeKeys lk rk} impl={mk}"
+  let v := v.diffIf (mergeMatches 0 0 lk rk != mm) s!"merge(PartialKeys,matches) model={mergeMatches 0 0 lk rk} impl={mm}"
+  let v := v.diffIf (mp.map (·.2) != mv) s!"merge(PartialValues) model={mp.map (·.2)} impl={mv}"
+  -- property: keys = ascending union; matches = positions of the common keys; values as merge(PartialFactors)
+  let union := (List.range (lk.foldl max 0 + rk.foldl max 0 + 1)).filter (fun k => lk.contains k || rk.contains k)
+  let v := v.failIf (mk != union) s!"merge(PartialKeys) not_sorted_union {mk}"
+  let v := v.failIf (!(mm.all (fun ij => lk.getD ij.1 0 == rk.getD ij.2 0 && decide (ij.1 < lk.length) && decide (ij.2 < rk.length))) || mm.length != (lk.filter rk.contains).length) s!"merge(PartialKeys,matches) wrong_matches {mm}"
+  let v := v.failIf (!(mk.zip mv).all (fun kv => some kv.2 == (match lookup kv.1 r with | some x => some x | none => lookup kv.1 l))) s!"merge(PartialValues) wrong_values {mv}"
+  let v := v.failIf (jk != lk ++ rk.map (· + bigS) || jv != l.map (·.2) ++ r.map (·.2)) s!"join(S,PartialFactors) wrong_join {jk}"
+  let v := v.failIf (tk != List.range full.length || tv != full) s!"toPartialFactors wrong {tk}"
+  return v.render
+
 def handle (toks : List String) : String :=
   let r := match toks with
     | "rt" :: rest => P.run rt rest
@@ -139,6 +177,8 @@ def handle (toks : List String) : String :=
     | "piek" :: rest => P.run piek rest
     | "tipf" :: rest => P.run tipf rest
     | "misc" :: rest => P.run misc rest
+    | "skipidx" :: rest => P.run skipidx rest
+    | "misc2" :: rest => P.run misc2 rest
     | _ => DrvC14b.handle toks
   r.getD "bad-op"
 
